@@ -482,7 +482,7 @@ theorem hasDup_of_dupDeep (p : JVal) (h : p.dupDeep = false) : hasDup p = false 
 /-- everything `generateSignatureEnvelope` checks -/
 def envChecks (i : Input) : Bool :=
   i.echoOk && !i.garbage && i.envFmt == i.format && verifyOk i && i.ctypeOk &&
-  !i.payload.dupDeep &&
+  singleDocument i && !i.payload.dupDeep &&
   sees i.req (goDecodePayload i.payload) && topKeysExact i.payload && descKeysKnown i.payload
 
 theorem envelopePath_eq (i : Input) :
@@ -501,14 +501,16 @@ theorem envelopePath_eq (i : Input) :
   case neg => simp [h0, h1, h2, h3, h4]
   by_cases h5 : i.ctypeOk = true
   case neg => simp [h0, h1, h2, h3, h4, h5]
+  by_cases hsd : singleDocument i = true
+  case neg => simp [h0, h1, h2, h3, h4, h5, hsd]
   cases hg : goDecodePayload i.payload with
-  | none => simp [h0, h1, h2, h3, h4, h5, sees]
+  | none => simp [h0, h1, h2, h3, h4, h5, hsd, sees]
   | some d =>
     rw [duplicate_check_fact.1]
     by_cases hdd : i.payload.dupDeep = true
-    · simp [h0, h1, h2, h3, h4, h5, hdd]
+    · simp [h0, h1, h2, h3, h4, h5, hsd, hdd]
     by_cases h6 : descValid i.req d = true
-    case neg => simp [h0, h1, h2, h3, h4, h5, hdd, h6, sees]
+    case neg => simp [h0, h1, h2, h3, h4, h5, hsd, hdd, h6, sees]
     have hs := scan_checked_iff i.payload
     have hp := scan_checked_ne_panic i.payload
     cases hsc : scanUnknown true i.payload with
@@ -516,7 +518,7 @@ theorem envelopePath_eq (i : Input) :
     | unknown ks =>
       rw [hsc] at hs
       simp only [scanClean] at hs
-      simp [h0, h1, h2, h3, h4, h5, hdd, h6, sees, hs, Bool.and_assoc]
+      simp [h0, h1, h2, h3, h4, h5, hsd, hdd, h6, sees, hs, Bool.and_assoc]
 
 theorem spec_facts (k : KS) :
     ∃ e h a, encodeKeySpec k.spec = some e ∧ hashFromKeySpec k.spec = some h ∧
@@ -635,8 +637,8 @@ theorem env_sig (i : Input) (hr : hasRaw i.cap = false) (he : hasEnvelope i.cap 
     refine ⟨?_, hc.2⟩
     have hc2 := hc.2
     simp only [envChecks, Bool.and_eq_true] at hc2
-    obtain ⟨⟨⟨⟨⟨⟨⟨⟨a1, a2⟩, a3⟩, a4⟩, a5⟩, _⟩, a6⟩, a7⟩, a8⟩ := hc2
-    simp [required, pathOf, hr, he, a1, a3, a4, a5, a6, a7, a8]
+    obtain ⟨⟨⟨⟨⟨⟨⟨⟨⟨a1, a2⟩, a3⟩, a4⟩, a5⟩, asd⟩, _⟩, a6⟩, a7⟩, a8⟩ := hc2
+    simp [required, pathOf, hr, he, a1, a3, a4, a5, asd, a6, a7, a8]
     simpa using a2
 
 /-- a signature is returned only after every check the property demands -/
@@ -766,7 +768,7 @@ every original annotation, the only top-level key is the exactly spelled `target
 the target object has only known descriptor keys. -/
 theorem envelope_path_sound (i : Input) (h : (envelopePath i).outcome = .sig) :
     i.echoOk = true ∧ i.garbage = false ∧ i.envFmt = i.format ∧ verifyOk i = true ∧ i.ctypeOk = true ∧
-    i.payload.dupDeep = false ∧
+    singleDocument i = true ∧ i.payload.dupDeep = false ∧
     (∃ d, goDecodePayload i.payload = some d ∧ d.mediaType = i.req.mediaType ∧ d.digest = i.req.digest ∧
         d.size = i.req.size ∧ ∀ kv ∈ i.req.annotations, d.annotations.lookup kv.1 = some kv.2) ∧
     topKeysExact i.payload = true ∧ descKeysKnown i.payload = true := by
@@ -775,8 +777,8 @@ theorem envelope_path_sound (i : Input) (h : (envelopePath i).outcome = .sig) :
   case isFalse => exact absurd h sig_ne_err
   case isTrue hc =>
     simp only [envChecks, Bool.and_eq_true, Bool.not_eq_true', beq_iff_eq] at hc
-    obtain ⟨_, ⟨⟨⟨⟨⟨⟨⟨h1, h2⟩, h3⟩, h4⟩, h5⟩, hdd⟩, h6⟩, h7⟩, h8⟩ := hc
-    refine ⟨h1, h2, h3, h4, h5, hdd, ?_, h7, h8⟩
+    obtain ⟨_, ⟨⟨⟨⟨⟨⟨⟨⟨h1, h2⟩, h3⟩, h4⟩, h5⟩, hsd⟩, hdd⟩, h6⟩, h7⟩, h8⟩ := hc
+    refine ⟨h1, h2, h3, h4, h5, hsd, hdd, ?_, h7, h8⟩
     cases hg : goDecodePayload i.payload with
     | none => simp [hg, sees] at h6
     | some d =>
@@ -788,20 +790,21 @@ Go decoder all read the same, requested, descriptor -/
 theorem envelope_path_sound_readers (i : Input) (h : (envelopePath i).outcome = .sig) :
     ∃ d, goDecodePayload i.payload = some d ∧ exactView i.payload = some d ∧
       firstView i.payload = some d ∧ descValid i.req d = true := by
-  obtain ⟨_, _, _, _, _, hdd, ⟨d, hg, hv⟩, ht, hk⟩ := envelope_path_sound i h
+  obtain ⟨_, _, _, _, _, _, hdd, ⟨d, hg, hv⟩, ht, hk⟩ := envelope_path_sound i h
   obtain ⟨h1, h2⟩ := views_agree i.payload d ht hk (hasDup_of_dupDeep _ hdd) hg
   exact ⟨d, hg, h1, h2, (descValid_iff _ _).2 hv⟩
 
 /-- **envelope path, completeness**: the converse - these checks are all there is -/
 theorem envelope_path_complete (i : Input) (hp : i.pluginErr ≠ .generate)
     (h1 : i.echoOk = true) (h2 : i.garbage = false) (h3 : i.envFmt = i.format)
-    (h4 : verifyOk i = true) (h5 : i.ctypeOk = true) (hdd : i.payload.dupDeep = false)
+    (h4 : verifyOk i = true) (h5 : i.ctypeOk = true) (hsd : singleDocument i = true)
+    (hdd : i.payload.dupDeep = false)
     (h6 : ∃ d, goDecodePayload i.payload = some d ∧ descValid i.req d = true)
     (h7 : topKeysExact i.payload = true) (h8 : descKeysKnown i.payload = true) :
     envelopePath i = sigObs := by
   obtain ⟨d, hg, hv⟩ := h6
   rw [envelopePath_eq]
-  simp [envChecks, hp, h1, h2, h3, h4, h5, hdd, hg, sees, hv, h7, h8]
+  simp [envChecks, hp, h1, h2, h3, h4, h5, hsd, hdd, hg, sees, hv, h7, h8]
 
 /-- **raw path, soundness**: through a raw-signature plugin a signature comes back only if
 DescribeKey and GenerateSignature answered for the requested key id, the described key spec is
@@ -816,6 +819,22 @@ theorem raw_path_sound (i : Input) (hr : hasRaw i.cap = true) (h : (run i).outco
   obtain ⟨⟨⟨a, b⟩, c⟩, d⟩ := this
   exact ⟨a, b, c, d⟩
 
+/-- **one document**: an envelope whose payload bytes go on after the first JSON value (a second
+payload object, a stray `]`, a BOM or any other non-blank byte before or after it) is never signed
+off - whatever the first value says -/
+theorem trailing_data_refused (i : Input) (hp : pathOf i = .envelope)
+    (h : jsonWs i.lead = false ∨ jsonWs i.trail = false) : (run i).outcome ≠ .sig := by
+  intro hs
+  have hc := (run_sig_required i hs).2 hp
+  simp only [envChecks, Bool.and_eq_true, singleDocument] at hc
+  obtain ⟨⟨⟨⟨⟨_, ⟨h1, h2⟩⟩, _⟩, _⟩, _⟩, _⟩ := hc
+  rcases h with h | h
+  · rw [h1] at h; cases h
+  · rw [h2] at h; cases h
+
+/-- blanks between the tokens of the document do not matter -/
+theorem spacing_ignored (i : Input) (b : Bool) : run { i with spaced := b } = run i := rfl
+
 /-- `response.SigningAlgorithm` of GenerateSignature is never read: the algorithm is fixed by
 the described key spec and checked against the leaf certificate instead -/
 theorem response_algorithm_ignored (i : Input) (a : String) : run { i with gsAlg := a } = run i := rfl
@@ -829,6 +848,7 @@ def findingWitness : Input :=
     garbage := false, ctypeOk := true,
     payload := .obj [("targetArtifact", .obj [("mediaType", .str "m"), ("digest", .str "sha256:00")]),
                      ("targetArtifact", .obj [("size", .num 7)])],
+    lead := "", trail := "", spaced := false,
     gsKeyIdOk := true, gsAlg := "ECDSA-SHA-256", sigMode := .good, chain := .ok, dupKeys := true }
 
 theorem former_finding_refused :
@@ -860,5 +880,11 @@ example : Holds { benign with payload := .obj [("targetArtifact", .obj [("mediaT
 /-- raw path: a key spec that is not the signing key's is refused -/
 example : run { benign with cap := .raw, dkKeySpec := "EC-384" } = errObs := by decide
 example : run { benign with cap := .raw } = sigObs := by decide
+/-- surrounding blanks are fine, a second document or a stray bracket is not -/
+example : run { benign with lead := " \n", trail := "\r\n\t " } = sigObs := by decide
+example : run { benign with trail := "{\"targetArtifact\":{\"digest\":\"sha256:ff\"}}" } = errObs := by decide
+example : run { benign with trail := "]" } = errObs := by decide
+example : run { benign with lead := "\uFEFF" } = errObs := by decide
+example : Holds { benign with trail := "]" } sigObs = false := by decide
 
 end NotationModel.C18
